@@ -6,7 +6,7 @@ COQ_TARGETS = ["Tie/C02.vo", "Properties/C02.vo"]
 PROPERTY_FILE = "Properties/C02.v"
 TIE = "Tie.C02"
 DRIVER = "c02_driver.py"
-SHARD = 40
+SHARD = 50
 THEOREMS = [
     "C02_implied_iff_reachable", "C02_extends_strict", "C02_extends_nonstrict", "C02_sro_members",
     "C02_sro_coherent", "C02_fresh_fuel_irrelevant", "C02_iro_is_interface_part",
@@ -226,7 +226,7 @@ def _creator(ops, handle):
 
 def generate(run, tier):
     rng = run.rng("gen")
-    n = 260 if tier == "quick" else 4000
+    n = 600 if tier == "quick" else 6000
     cases = []
     for k in range(n):
         r = rng.random()
@@ -244,17 +244,10 @@ def generate(run, tier):
 # --------------------------------------------------------------------------- Coq terms
 
 def _l(xs):
-    return C.clist(["%d" % x for x in xs])
-
-
-def _e(xs):
-    """list of creation numbers (< 64) as one base-64 numeral with a leading sentinel 1"""
-    n = 1
-    for x in reversed(xs):
+    for x in xs:
         if not 0 <= x < 64:
-            raise C.HarnessError("creation number out of range for the compact encoding: %r" % (x,))
-        n = n * 64 + x
-    return "%d%%N" % n
+            raise C.HarnessError("creation number out of range: %r" % (x,))
+    return "[" + ";".join("n%d" % x for x in xs) + "]"
 
 
 def _steps(case, obs):
@@ -280,26 +273,32 @@ def _steps(case, obs):
                 if p[1] == 0:
                     continue
                 bs = want if (want is not None and p[1] == st["node"] and op["op"] != "setbases") else p[3]
-                mops.append("NewSpec %d %s %s" % (p[1], C.cbool(p[2] == "iface"), _l(bs)))
+                mops.append("NewSpec n%d %s %s" % (p[1], C.cbool(p[2] == "iface"), _l(bs)))
             elif p[0] == "set":
                 bs = want if (want is not None and op["op"] == "setbases") else p[2]
-                mops.append("SetBases %d %s" % (p[1], _l(bs)))
+                mops.append("SetBases n%d %s" % (p[1], _l(bs)))
             else:
-                mops.append("Drop %d" % p[1])
+                mops.append("Drop n%d" % p[1])
         out.append((mops, st["snap"], dict(kinds)))
     return out
 
 
 def coq_case(case, obs, mode):
     steps = []
+    prev = {}
     for mops, snap, kinds in _steps(case, obs):
+        rows = {row[0]: row for row in snap}
+        gone = [i for i in prev if i not in rows]
         sn = []
         for row in snap:
+            if prev.get(row[0]) == row:
+                continue
             i, bs, sro, iro, ioe, ext, extns, prov = row
-            sn.append("sn %d %s %s %s %s %s %s %s %s" % (
-                i, C.cbool(kinds.get(i) == "iface"), _e(bs), _e(sro), _e(iro), _e(ioe), _e(ext), _e(extns),
-                "0%N" if prov is None else _e(prov)))
-        steps.append("(%s, %s)" % (C.clist(mops), C.clist(sn)))
+            sn.append("%s n%d %s %s %s %s %s %s %s%s" % (
+                "sn" if prov is None else "snp", i, C.cbool(kinds.get(i) == "iface"), _l(bs), _l(sro), _l(iro),
+                _l(ioe), _l(ext), _l(extns), "" if prov is None else " " + _l(prov)))
+        steps.append("(%s, %s, %s)" % (C.clist(mops), _l(gone), C.clist(sn)))
+        prev = rows
     return "(%s, %s)" % (C.cbool("exc" in obs), C.clist(steps))
 
 
